@@ -635,6 +635,11 @@ func (p *parser) parseFunctionParameters() []*ast.Identifier {
 }
 
 func (p *parser) parseCallExpression(function ast.Expression) ast.Expression {
+	if function == nil {
+		// the callee failed to parse; its error is already recorded
+		return nil
+	}
+
 	exp := &ast.CallExpression{
 		TokenAble: ast.TokenAble{Token: p.curToken},
 		Function:  function,
@@ -719,6 +724,11 @@ func (p *parser) parseArrayLiteral() ast.Expression {
 }
 
 func (p *parser) parseIndexExpression(left ast.Expression) ast.Expression {
+	if left == nil {
+		// the indexed expression failed to parse; its error is already recorded
+		return nil
+	}
+
 	exp := &ast.IndexExpression{TokenAble: ast.TokenAble{Token: p.curToken}, Left: left}
 
 	p.nextToken()
